@@ -129,6 +129,8 @@ func plan(tier string, seed int64) []run.Batch {
 		front = append(front, run.Batch{Kind: "long", Variant: l.variant, Seed: seed*1000003 + 999900 + int64(i), N: l.calls, TimeoutS: 100,
 			Params: map[string]string{"limit": fmt.Sprint(l.limit), "window_ns": fmt.Sprint(int64(l.w))}})
 	}
+	front = append(front, run.Batch{Kind: "prodconfig", Variant: "", Seed: seed*1000003 + 999990, N: 1, TimeoutS: 60},
+		run.Batch{Kind: "prodconfig", Variant: "race", Seed: seed*1000003 + 999991, N: 1, TimeoutS: 60})
 	front = append(front, run.Batch{Kind: "archive", Variant: "race", Seed: seed*1000003 + 999983, N: 3, TimeoutS: 60},
 		run.Batch{Kind: "archive", Variant: "", Seed: seed*1000003 + 999984, N: 3, TimeoutS: 60})
 	bs = append(front, bs...)
@@ -137,6 +139,8 @@ func plan(tier string, seed int64) []run.Batch {
 
 func child(b run.Batch, r *ev.Result) {
 	switch b.Kind {
+	case "prodconfig":
+		childProdConfig(b, r)
 	case "grid":
 		childGrid(b, r)
 	case "archive":
